@@ -111,7 +111,7 @@ def main(tier):
     wprogs, _ = fam.compile([dict(name=n, text=t, vkey=n) for n, t in SUB_WRAPPERS])
     nst = 64 if tier == "quick" else 256
     allp = progs + wprogs
-    out = fam.differential(allp, nst, clang=(tier == "thorough"), nontrivial=lambda p, r: r.changed > 0, key_of=lambda p: p.name)
+    out = fam.differential(allp, nst, clang=(tier == "thorough"), nontrivial=lambda p, r: r.changed > 0, key_of=lambda p: p.name, deepen=True)
     cov = fam.coverage()
     cov.update({
         "evaluations": fam.stats["evaluations"],
